@@ -158,6 +158,37 @@ impl<T> M2Array<T> {
     }
 }
 
+/// Allocate a read buffer of `len` bytes, but only if the stream can still deliver that many.
+///
+/// Counts and sizes come from the (possibly damaged) file: checking them against what is left of
+/// the stream keeps a bad value from driving a huge allocation before the read fails.
+pub fn alloc_for_read<R: Read + Seek>(reader: &mut R, len: usize) -> Result<Vec<u8>> {
+    ensure_available(reader, len as u64)?;
+    Ok(vec![0u8; len])
+}
+
+/// Pre-allocation hint for a list whose element count comes from the file: the count is not
+/// trusted for more than 64K elements up front (the list still grows to whatever is really read).
+pub fn bounded_capacity(count: usize) -> usize {
+    count.min(1 << 16)
+}
+
+/// Fail unless at least `bytes` bytes are left in the stream (the position is preserved).
+pub fn ensure_available<R: Read + Seek>(reader: &mut R, bytes: u64) -> Result<()> {
+    let pos = reader.stream_position().map_err(M2Error::Io)?;
+    let end = reader.seek(std::io::SeekFrom::End(0)).map_err(M2Error::Io)?;
+    reader
+        .seek(std::io::SeekFrom::Start(pos))
+        .map_err(M2Error::Io)?;
+    if bytes > end.saturating_sub(pos) {
+        return Err(M2Error::ParseError(format!(
+            "{bytes} bytes announced at offset {pos}, but only {} left in the file",
+            end.saturating_sub(pos)
+        )));
+    }
+    Ok(())
+}
+
 /// Reads data at an array reference location
 pub fn read_array<T, R, F>(reader: &mut R, array: &M2Array<T>, parse_fn: F) -> Result<Vec<T>>
 where
@@ -173,8 +204,9 @@ where
         .seek(std::io::SeekFrom::Start(array.offset as u64))
         .map_err(M2Error::Io)?;
 
-    // Read each element
-    let mut result = Vec::with_capacity(array.count as usize);
+    // Read each element (every element takes at least one byte of the stream)
+    ensure_available(reader, array.count as u64)?;
+    let mut result = Vec::with_capacity(crate::common::bounded_capacity(array.count as usize));
     for _ in 0..array.count {
         result.push(parse_fn(reader)?);
     }
@@ -199,7 +231,7 @@ pub fn read_raw_bytes<R: Read + Seek>(
 
     // Read raw bytes
     let total_bytes = array.count as usize * element_size;
-    let mut data = vec![0u8; total_bytes];
+    let mut data = alloc_for_read(reader, total_bytes)?;
     reader.read_exact(&mut data).map_err(M2Error::Io)?;
 
     Ok(data)
@@ -320,7 +352,7 @@ impl FixedString {
 
     /// Parse a fixed-width string from a reader
     pub fn parse<R: Read + Seek>(reader: &mut R, len: usize) -> Result<Self> {
-        let mut data = vec![0u8; len];
+        let mut data = alloc_for_read(reader, len)?;
         reader.read_exact(&mut data)?;
 
         // Find null terminator
